@@ -490,9 +490,14 @@ def execute(env, sc):
             while b"\r\n\r\n" not in c.rbuf and c._fill(deadline):
                 pass
             c.send(stream[P:])
-        t_end = time.time() + 10
+        # Wait for the proxy to work through the stream: while fewer responses arrived than the reference has messages the
+        # proxy is expected to answer (or to close), be patient (loaded machine); after that only a short quiet period.
+        expected = sum(1 for rm in ref if rm.verdict in ("accept", "accept-last")) + (1 if ref and ref[-1].verdict in ("reject", "bad-body") else 0)
+        t_end = time.time() + 12
         while time.time() < t_end and not c.eof:
-            if not c._fill(time.time() + 0.35):
+            buf = bytes(c.rbuf)
+            seen_resp = buf.count(b"HTTP/1.1 ")   # responses follow each other without a separator; over-counting only shortens the wait
+            if not c._fill(time.time() + (2.5 if seen_resp < expected else 0.3)):
                 break
     finally:
         c.close()
